@@ -27,9 +27,12 @@ Events == ndJsonDeserialize(IOEnv.TRACE_FILE)
 VARIABLES i, failed, bind, memo
 tvars == <<vars, i, failed, bind, memo>>
 
-Ops == {"Perturb", "Reseed", "CallNone", "CallInt", "CallGen"}
+Ops == {"Perturb", "Reseed", "CallNone", "CallInt", "CallGen", "FitObj", "CloneFit"}
+\* FitObj: ONE estimator object, constructed at Reset with the integer seed ObjSeed[o], is fitted again;
+\* CloneFit: a new estimator built from o.get_params() is fitted.  Both are calls with that integer seed.
+ObjOps == {"FitObj", "CloneFit"}
 
-HasFields(e) == {"id", "tr", "ev", "e", "s", "g", "out", "res", "glob", "gens"} \subseteq DOMAIN e
+HasFields(e) == {"id", "tr", "ev", "e", "s", "g", "o", "out", "res", "glob", "gens"} \subseteq DOMAIN e
 WellFormed(e) ==
     /\ HasFields(e)
     /\ e.glob \in Nat /\ e.res \in Nat /\ e.s \in Nat
@@ -44,12 +47,14 @@ ResAgrees(r, d) == \A p \in memo : p[1] = r => p[2] = d
 ArgOf(e) == CASE e.ev = "CallNone" -> ArgNone
               [] e.ev = "CallInt"  -> ArgInt(e.s)
               [] e.ev = "CallGen"  -> ArgGen(e.g)
+              [] e.ev \in ObjOps   -> ArgObj(e.o)
 
 OpOK(e) == CASE e.ev = "Perturb"  -> TRUE
              [] e.ev = "Reseed"   -> e.s \in Seeds
              [] e.ev = "CallNone" -> e.e \in Entries
              [] e.ev = "CallInt"  -> e.e \in Seedable /\ e.s \in Seeds
              [] e.ev = "CallGen"  -> e.e \in Seedable /\ e.g \in Gens
+             [] e.ev \in ObjOps   -> e.e \in ObjEntries /\ e.o \in Objs
              [] OTHER -> FALSE
 
 GlobSame(e)        == e.glob = DigOf(S.global)
@@ -61,7 +66,7 @@ CallVerdict(e) ==
         r  == Result(S, e.e, a)
         s2 == After(S, e.e, a)
     IN
-    IF e.ev = "CallInt" THEN
+    IF e.ev = "CallInt" \/ e.ev \in ObjOps THEN        \* a (re)fit of a seed-holding object is a call with that seed
         IF ~ResAgrees(r, e.res) THEN "SameSeedSameResult"
         ELSE IF ~GlobSame(e) THEN "IntSeedLeavesGlobal"
         ELSE IF ~GensSame(e) THEN "IntSeedTouchedGenerator"
@@ -123,6 +128,8 @@ ResetVerdict(e) ==
     IF ~WellFormed(e) THEN "Malformed"
     ELSE IF ~("genseed" \in DOMAIN e /\ DOMAIN e.genseed = Gens) THEN "Malformed"
     ELSE IF \E g \in Gens : e.genseed[g] # GenSeed[g] THEN "Malformed"
+    ELSE IF ~("objseed" \in DOMAIN e /\ DOMAIN e.objseed = Objs) THEN "Malformed"
+    ELSE IF \E o \in Objs : e.objseed[o] # ObjSeed[o] THEN "Malformed"
     ELSE IF \E g, h \in Gens : GenSeed[g] = GenSeed[h] /\ e.gens[g] # e.gens[h] THEN "TwinInitialStatesDiffer"
     ELSE "ok"
 
